@@ -106,6 +106,7 @@ Inductive tinstr :=
   | TMapWithOld (fid : Z) (arg : operand)
   | TFold (fid : Z) (init : Z) (args : list operand)
   | TCutoff (target : operand) (c : cutoff)
+  | TExport (o : operand)                       (* the closure hands the node out: it gets a user handle *)
   | TBind (lhs : operand) (f : bindfn)
 with bindfn :=
   | BindFn (effs : list effect) (templates : list (list tinstr * operand)).
@@ -272,6 +273,8 @@ Record state := State {
   num_active_observers : Z;
   debug : bool;
   events : list event;            (* newest first *)
+  handles : list (option nid);    (* the user's node handles (Incr clones held by the test program); None once dropped *)
+  exports : list nid;             (* nodes handed out by bind closures (TExport), also held by the program *)
   inv_count : nat;                (* user-function invocations so far *)
   crash_at : option nat;          (* inject a panic at this invocation *)
 }.
@@ -280,7 +283,7 @@ Global Instance eta_state : Settable _ := settable! State
    ahh_max_seen; st_status; stab_num; prop_inv; has_stack; run_ouh; new_obs; all_obs;
    disallowed_obs; cur_scope; set_during; dead_vars; num_var_sets; num_recomputed; num_created;
    num_changed; num_became_necessary; num_became_unnecessary; num_invalidated;
-   num_active_observers; debug; events; inv_count; crash_at>.
+   num_active_observers; debug; events; handles; exports; inv_count; crash_at>.
 
 (* ---------------------------------------------------------------- monad *)
 Definition M (A : Type) : Type := state -> res A * state.
